@@ -8,9 +8,20 @@
 //   C17        : stdin "case <id> dict" | "case <id> master x<hex>:<hash>,x<hex>:<hash>,..."
 //                (master: the predefined list python got from `dump`; checked against the
 //                running code), ops, "end"
-//     ops : add x<hex> <hash>    Add(strview(char array, length))
-//           addd x<hex> <hash>   Add(strview(str))          (the "dynamic" path of Add)
-//           get x<hex> <hash>    Get(const rawchar_t*)
+//     ops : add x<hex> <hash> [<how> [x<suffix> [x<junk>]]]     intern the text; <how> says how the text is
+//                                handed to StringDictionary::Add(strview) (the model's op is the same for all):
+//             exact  (default)   non-owning strview(ptr, len), the buffer is exactly the text + NUL
+//             prefix             non-owning strview(ptr, len), the buffer is text + suffix + NUL: the view is a
+//                                proper prefix of a longer NUL-terminated buffer (with an empty text: the empty
+//                                view of a non-empty buffer)
+//             mid                non-owning strview(ptr + |junk|, len) into the buffer junk + text + suffix + NUL
+//             cstr               Add(const rawchar_t*): implicit strview(ptr), the length is taken up to the NUL
+//             own                owning view: strview(const str&) built explicitly
+//             str                Add(const str&): the str converts implicitly to an owning view
+//           addd x<hex> <hash>   = add .. own
+//           get x<hex> <hash> [<how> [x<junk>]]      Get(const rawchar_t*) (the only lookup by text);
+//             cstr (default) the pointer is a buffer holding exactly the text; str: the c_str() of a str;
+//             mid: a pointer into the middle of the buffer junk + text + NUL
 //           txt <id>             Get(const_str)  - precondition 1 <= id <= size, otherwise the
 //                                op is NOT executed, "m undef" is printed and the case ends
 //           pre <n>              AllocateMoreString(n) - precondition size + n <= 89834777
@@ -249,19 +260,50 @@ static void runCase(const std::string& id, const std::string& header, const std:
             if (t.find('\0') != std::string::npos) marks += " !nul";
             const uint64_t h = realHash(t);
             if (hex64(h) != a2) marks += " !hash(real " + hex64(h) + ")";
+            std::string how, w3, w4, suffix, junk;
+            is >> how >> w3 >> w4;
+            if (c == "addd") how = "own";
             if (c == "get") {
                 cls = 'g';
-                const uint32_t got = (uint32_t)dict->Get(t.c_str());
+                if (how.empty()) how = "cstr";
+                if (!w3.empty() && !unhex(w3, junk)) marks += " !badhex";
+                uint32_t got;
+                if (how == "str") {
+                    const str holder(t.c_str(), t.size());
+                    got = (uint32_t)dict->Get(holder.c_str());
+                } else if (how == "mid") {
+                    const std::string buf = junk + t;
+                    got = (uint32_t)dict->Get(buf.c_str() + junk.size());
+                } else {
+                    if (how != "cstr") marks += " !badhow";
+                    got = (uint32_t)dict->Get(t.c_str());
+                }
                 res = "i" + std::to_string(got);
                 auto it = sh.ids.find(t);
                 if (got != (it == sh.ids.end() ? 0u : it->second)) marks += " !lookup";
             } else {
                 cls = 'a';
                 uint32_t got;
-                if (c == "addd") {
+                if (how.empty()) how = "exact";
+                if (!w3.empty() && !unhex(w3, suffix)) marks += " !badhex";
+                if (!w4.empty() && !unhex(w4, junk)) marks += " !badhex";
+                if (suffix.find('\0') != std::string::npos || junk.find('\0') != std::string::npos) marks += " !nul";
+                if (how == "own") {
                     const str dyn(t.c_str(), t.size());
                     got = (uint32_t)dict->Add(strview(dyn));
+                } else if (how == "str") {
+                    const str dyn(t.c_str(), t.size());
+                    got = (uint32_t)dict->Add(dyn);
+                } else if (how == "cstr") {
+                    got = (uint32_t)dict->Add(t.c_str());
+                } else if (how == "prefix") {
+                    const std::string buf = t + suffix;
+                    got = (uint32_t)dict->Add(strview(buf.c_str(), t.size()));
+                } else if (how == "mid") {
+                    const std::string buf = junk + t + suffix;
+                    got = (uint32_t)dict->Add(strview(buf.c_str() + junk.size(), t.size()));
                 } else {
+                    if (how != "exact") marks += " !badhow";
                     got = (uint32_t)dict->Add(strview(t.c_str(), t.size()));
                 }
                 res = "i" + std::to_string(got);
